@@ -6,6 +6,7 @@ import (
 	"context"
 	"encoding/json"
 	"fmt"
+	"os"
 	"sort"
 	"strings"
 	"time"
@@ -32,7 +33,8 @@ type pipeState struct {
 	panics  []finding
 	signer  string // abstract user whose server signs
 	seen    map[string]bool
-	verbose bool
+	dep     gmsl.PDU
+	depDone bool
 }
 
 type finding struct {
@@ -46,6 +48,9 @@ type finding struct {
 
 func (s *pipeState) note(callName string, o outcome) outcome {
 	s.steps = append(s.steps, step{callName, o.Out})
+	if debugCalls {
+		fmt.Fprintf(os.Stderr, "call %s -> %s %s\n", callName, o.Out, o.Err)
+	}
 	if o.Panic != nil {
 		k := "C18/panic/" + o.Panic.Func + "/" + s.class
 		if s.seen == nil {
@@ -63,6 +68,8 @@ func (s *pipeState) do(name string, fn func() error) outcome { return s.note(nam
 func (s *pipeState) dov(name string, fn func()) outcome      { return s.note(name, callv(fn)) }
 
 var bg = context.Background()
+
+var debugCalls = os.Getenv("C18_DEBUG") != ""
 
 // verifier checks signatures against the harness' static server keys (what a key ring with all keys cached does).
 type verifier struct{}
@@ -195,7 +202,8 @@ func (s *pipeState) helper(name string) outcome {
 	case "SenderIDMethods":
 		return s.dov(n, func() {
 			senderIDMethods(e.SenderID())
-			if sk := e.StateKey(); sk != nil {
+			// the state key of a membership event is the sender ID of the target
+			if sk := e.StateKey(); sk != nil && e.Type() == "m.room.member" {
 				senderIDMethods(spec.SenderID(*sk))
 			}
 		})
@@ -410,14 +418,46 @@ func (s *pipeState) resolveInput(role string) resolveInput {
 	if inState {
 		in.setB = append(in.setB, s.cur)
 	}
-	for _, n := range c.order {
+	for _, n := range c.chain() {
 		in.auth = append(in.auth, c.pdu[n])
 	}
 	if inAuth {
 		in.auth = append(in.auth, s.cur)
 	}
-	in.all = append(append([]gmsl.PDU{}, in.auth...), s.cur)
+	// an event of the other fork that cites the subject among its auth events (what an auth chain looks like
+	// when the subject is part of it)
+	if dep := s.dependent(); dep != nil {
+		for i, p := range in.setB {
+			if p == c.pdu["jr"] { // a conflicted control event: it is ordered by its sender's power level
+				in.setB[i] = dep
+			}
+		}
+		in.auth = append(in.auth, dep)
+	}
+	in.all = append(append([]gmsl.PDU{}, in.auth...), c.pdu["msg"], s.cur)
 	return in
+}
+
+// dependent builds (once per pipeline) a well-formed join rules event of alice (level 50) whose auth_events cite the subject.
+func (s *pipeState) dependent() gmsl.PDU {
+	if s.depDone {
+		return s.dep
+	}
+	s.depDone = true
+	c := s.room
+	var id string
+	if pi := guard(func() { id = s.cur.EventID() }); pi != nil || id == "" {
+		return nil
+	}
+	t := c.newEvent("dep", "m.room.join_rules", strp(""), "alice", tree{"join_rule": "invite"}, []string{"create", "jalice", "pl"}, []string{"msg"})
+	c.depth-- // the shared room is not advanced by per-record events
+	auth, _ := t["auth_events"].([]interface{})
+	more := c.refs([]string{id}).([]interface{})
+	t["auth_events"] = append(more, auth...) // the subject first: the walks over auth events meet it before the room's own events
+	if ev, o := c.parse(withContentHash(marshalTree(t), c.fmtV1)); o.Out == "ok" {
+		s.dep = ev
+	}
+	return s.dep
 }
 
 func jsonsOf(events []gmsl.PDU) gmsl.EventJSONs {
